@@ -9,4 +9,9 @@ require (
 	pgregory.net/rapid v1.3.0
 )
 
-require github.com/shopspring/decimal v1.3.1 // indirect
+require (
+	github.com/shopspring/decimal v1.3.1 // indirect
+	github.com/sourcegraph/conc v0.3.0 // indirect
+	golang.org/x/exp v0.0.0-20230817173708-d852ddb80c63 // indirect
+	golang.org/x/sync v0.3.0 // indirect
+)
